@@ -195,7 +195,7 @@ PROPS = {
     },
     "C15": {
         "module": "TcVerif.Props.C15",
-        "theorems": ["Tc.C15_slot0", "Tc.C15_no_renumber_stable", "Tc.C15_no_renumber_newcomers_after", "Tc.C15_renumber_compact",
+        "theorems": ["Tc.C15_source_status", "Tc.C15_slot0", "Tc.C15_no_renumber_stable", "Tc.C15_no_renumber_newcomers_after", "Tc.C15_renumber_compact",
                      "Tc.C15_renumber_order", "Tc.C15_exact", "Tc.C15_commit_adds_at_end", "Tc.C15_commit_adds_iff", "Tc.C15_no_duplicates"],
         "leanchecker_modules": [],
         "runs": [
@@ -209,7 +209,7 @@ PROPS = {
     },
     "C20": {
         "module": "TcVerif.Props.C20",
-        "theorems": ["Tc.C20_expiry_days", "Tc.C20_predicate", "Tc.C20_other_status_kept", "Tc.C20_unreadable_kept", "Tc.C20_recent_kept",
+        "theorems": ["Tc.C20_source_status", "Tc.C20_expiry_days", "Tc.C20_predicate", "Tc.C20_other_status_kept", "Tc.C20_unreadable_kept", "Tc.C20_recent_kept",
                      "Tc.C20_expire_exact", "Tc.C20_expiry_propagates", "Tc.C03_delete_beats_update"],
         "leanchecker_modules": [],
         "runs": [
